@@ -111,5 +111,6 @@ func init() {
 	register(&Check{Prop: "C02", Level: "exploration",
 		Rule:   "seeded scenarios: hostile initial population + 0..80 hostile steps (faults, lag, restarts, user edits, strays), then the calm phase (user stops, faults stop, caches catch up, kubelet makes every remaining pod Running+Ready, terminating pods vanish); bounded progress: converged within 10*(pods+replicas)+30 rounds, then 5 more rounds must issue no write; non-trivial = the calm phase needed at least one round; distinct by trace tail",
 		Assume: append([]string{"'eventually' is restated as bounded progress in logical rounds (no finite run decides unbounded liveness)", "premise: pods squatting a name of the set without being claimable are removed by their owners; a Failed/Succeeded pod outside the desired set of an OrderedReady set is restarted; a raised pause flag is lowered; sets being deleted are exempt"}, simAssumptions...),
-		Cases:  scenarioCases(3200, 64000), Run: calmFamily("C02"), Floors: []string{"converged", "quiet_fixed_points", "scenarios_needing_calm_work"}})
+		Cases:  scenarioCases(3200, 64000), Run: calmFamily("C02"),
+		Race: runLive("C02"), RaceCases: scenarioCases(16, 160), Floors: []string{"converged", "quiet_fixed_points", "scenarios_needing_calm_work"}})
 }
